@@ -408,7 +408,9 @@ double Integrate_MC_Vegas(std::function<double(std::vector<double>&, const doubl
 					x[j] = region[j] + rc * dx[j];
 					wgt *= xo * xnd;
 				}
-				f  = wgt * func(x, wgt);
+				// The integrand receives exactly ndim coordinates (x has the fixed size MXDIM and keeps the coordinates of earlier calls of higher dimension).
+				std::vector<double> point(x.begin(), x.begin() + ndim);
+				f = wgt * func(point, wgt);
 				f2 = f * f;
 				fb += f;
 				f2b += f2;
